@@ -195,7 +195,7 @@ Inductive obj :=
 | OVector (v : list nnum)
 | OBytes (b : list N)
 | ODict (k : N)
-| OOther (k : N).          (* Func, Instance, Seq::Stream *)
+| OOther (k : N).          (* Func, Seq::Stream: == is false even against itself; struct instances are not modelled *)
 
 Definition is_seq (a : obj) : bool :=
   match a with OList _ | OString _ | OVector _ | OBytes _ | ODict _ => true | _ => false end.
@@ -216,7 +216,7 @@ Fixpoint obj_eq (a b : obj) {struct a} : bool :=
   | OVector l, OVector r => slice_eq nnum_eq l r
   | OBytes l, OBytes r => slice_eq N.eqb l r
   | ODict j, ODict k => N.eqb j k
-  | _, _ => false            (* includes Func/Instance/Stream: not modelled, never ordered *)
+  | _, _ => false            (* includes Func and Stream, which are == to nothing *)
   end.
 
 Fixpoint obj_partial_cmp (a b : obj) {struct a} : option comparison :=
